@@ -22,5 +22,10 @@ def oracle : List Sexp → Sexp
     match (LinModel.dec lm : Option (LinModel (Ext Rat))), (ImplRes.dec res : Option (ImplRes (Ext Rat))) with
     | some lm, some r => SolveOracle.checkShadow lm r
     | _, _ => app "err" [.atom "decode"]
+  | [.atom "shadow-compiled", src, comp, res] =>
+    match (LinModel.dec src : Option (LinModel (Ext Rat))), (LinModel.dec comp : Option (LinModel (Ext Rat))),
+          (ImplRes.dec res : Option (ImplRes (Ext Rat))) with
+    | some src, some comp, some r => SolveOracle.checkShadowCompiled src comp r
+    | _, _, _ => app "err" [.atom "decode"]
   | _ => app "err" [.atom "bad-request"]
 end Rooc.Drv.C20
